@@ -58,6 +58,12 @@ def run(res):
                             walks=3000 if thorough else 1000, walk_len=30, shifts=(0,), pre=pre[name])
         if res.violations:
             break
+    if not res.violations:
+        # (B) recorded executions: 6 maps, 8 handles, 5 names, keys up to depth 3, 3 layers, armed load faults, staging
+        # moves, re-snapshots - and the repository's own tests that use ResourceMap / Handle
+        from . import resources_trace as rt
+        rt.trace_validate(res, 'c17_recorded', 600 if thorough else 100, 60 if thorough else 40)
+        rt.repo_tests_validate(res)
 
 
 def replay(res, path):
